@@ -568,3 +568,105 @@ Proof.
   - destruct E as (ms' & E & _). rewrite E. exact I.
   - rewrite E. exact I.
 Qed.
+
+(* ================================================================================================ *)
+(* (f) CMS miniAOD: token-based retrieval                                                           *)
+(* ================================================================================================ *)
+(* the pass changes only the text of the retrieval blocks: execution is the same *)
+Lemma tk_exec (brs : list branch) (ev : event) :
+  (forall s t st, exec_stmt brs ev (fst (tk_stmt s t)) st = exec_stmt brs ev s st) /\
+  (forall b t pre st, exec_block brs ev (fst (tk_block b t)) pre st = exec_block brs ev b pre st) /\
+  (forall l t st, exec_stmts brs ev (fst (tk_stmts l t)) st = exec_stmts brs ev l st).
+Proof.
+  apply sbs_mutind; intros; cbn [tk_stmt tk_block tk_stmts]; try reflexivity.
+  - (* SFor *) destruct (tk_block b t) as [b' t'] eqn:E. cbn [fst]. rewrite !exec_for.
+    destruct (eval ev st e) as [c|f|k]; cbn [rbind]; try reflexivity. destruct c; try reflexivity.
+    assert (Hb : forall pre st0, exec_block brs ev b' pre st0 = exec_block brs ev b pre st0).
+    { intros pre st0. specialize (H t pre st0). rewrite E in H. exact H. }
+    revert st. induction l as [|v r IH]; intro st; [reflexivity|]. rewrite !for_loop_cons, Hb.
+    destruct (exec_block brs ev b [(x, ("auto", v))] st); cbn [rbind]; try reflexivity. apply IH.
+  - (* SIf *) destruct els as [b2|].
+    + destruct (tk_block b t) as [b' t1] eqn:E1. cbn [fst]. rewrite !exec_if.
+      destruct (eval ev st c) as [v|f|k]; cbn [rbind]; try reflexivity.
+      destruct (truth v) as [tv|f|k]; cbn [rbind]; try reflexivity.
+      destruct tv; [|reflexivity]. specialize (H t [] st). rewrite E1 in H. exact H.
+    + destruct (tk_block b t) as [b' t1] eqn:E1. cbn [fst]. rewrite !exec_if.
+      destruct (eval ev st c) as [v|f|k]; cbn [rbind]; try reflexivity.
+      destruct (truth v) as [tv|f|k]; cbn [rbind]; try reflexivity.
+      destruct tv; [|reflexivity]. specialize (H t [] st). rewrite E1 in H. exact H.
+  - (* SBlk *) destruct (tk_block b t) as [b' t'] eqn:E. cbn [fst exec_stmt]. specialize (H t [] st). rewrite E in H. exact H.
+  - (* Blk *) destruct (tk_stmts body t) as [body' t'] eqn:E. cbn [fst]. rewrite !exec_block_eq.
+    destruct (run_decls ev ds (enter pre st)) as [st1|f|k]; cbn [rbind]; try reflexivity.
+    specialize (H t st1). rewrite E in H. cbn [fst] in H. rewrite H. reflexivity.
+  - (* SCons *) destruct (tk_stmt s t) as [s' t1] eqn:E1. destruct (tk_stmts r t1) as [r' t2] eqn:E2. cbn [fst].
+    rewrite !exec_stmts_cons. specialize (H t st). rewrite E1 in H. cbn [fst] in H. rewrite H.
+    destruct (exec_stmt brs ev s st) as [st'|f|k]; cbn [rbind]; try reflexivity.
+    specialize (H0 t1 st'). rewrite E2 in H0. cbn [fst] in H0. exact H0.
+Qed.
+
+Lemma run_event_mini (bk : backend) (q : query) (n0 : nat) (ms : frame) (ev : event) :
+  let nt := List.length (fetches_block (p_body (prog_q bk q n0))) in
+  run_event (prog_q_mini bk q n0) ms ev = run_event (prog_q bk q (n0 + nt)) ms ev.
+Proof.
+  cbn zeta. unfold run_event, prog_q_mini. cbn [p_body p_branches].
+  rewrite (proj1 (proj2 (tk_exec _ ev))). reflexivity.
+Qed.
+
+Lemma run_job_from_ext (p p' : program) :
+  (forall ms ev, run_event p' ms ev = run_event p ms ev) ->
+  forall evs ms n acc, run_job_from p' ms evs n acc = run_job_from p ms evs n acc.
+Proof.
+  intro H. induction evs as [|ev r IH]; intros ms n acc; cbn [run_job_from]; [reflexivity|].
+  rewrite H. destruct (run_event p ms ev) as [[rs ms']|f|k]; try reflexivity. apply IH.
+Qed.
+
+Lemma binit_initial_incl (b : qbody) (n : nat) (L : list member) :
+  NoDup (map m_name L) -> incl (body_members b n) L -> binit b n (initial_members L).
+Proof.
+  destruct b as [r|cr ps cols]; cbn [binit body_members]; intros Nd Hin.
+  - apply members_init_initial; assumption.
+  - apply pdecl_initial; assumption.
+Qed.
+
+Lemma token_member_names (fs : list (string * string)) : forall t m,
+  In m (map m_name (token_members fs t)) -> exists i, m = tok_name i /\ t <= i.
+Proof.
+  induction fs as [|[ct bank] r IH]; intros t m Hm; cbn [token_members map m_name] in Hm; [destruct Hm|].
+  destruct Hm as [<-|Hm]; [exists t; split; [reflexivity|lia]|].
+  destruct (IH (S t) m Hm) as (i & E & L). exists i. split; [exact E|lia].
+Qed.
+Lemma token_members_nodup (fs : list (string * string)) : forall t, NoDup (map m_name (token_members fs t)).
+Proof.
+  induction fs as [|[ct bank] r IH]; intro t; cbn [token_members map m_name]; constructor; [|apply IH].
+  intro Hin. destruct (token_member_names r (S t) _ Hin) as (i & E & L).
+  unfold tok_name in E. apply (nm_inj "token" "token" t i eq_refl eq_refl) in E. lia.
+Qed.
+Lemma body_member_names (b : qbody) (n : nat) : map m_name (body_members b n) = bmems b n.
+Proof. destruct b as [r|cr ps cols]; cbn [body_members bmems]; [apply row_members_names|apply prow_members_names]. Qed.
+
+Lemma nodup_app {A} (l1 l2 : list A) :
+  NoDup l1 -> NoDup l2 -> (forall x, In x l1 -> In x l2 -> False) -> NoDup (l1 ++ l2).
+Proof.
+  induction l1 as [|a r IH]; intros N1 N2 D; cbn [app]; [exact N2|].
+  inversion N1 as [|? ? Nin N1']; subst. constructor.
+  - intro Hin. apply in_app_or in Hin as [Hin|Hin]; [exact (Nin Hin)|exact (D a (or_introl eq_refl) Hin)].
+  - apply IH; [exact N1'|exact N2|]. intros x H1 H2. exact (D x (or_intror H1) H2).
+Qed.
+
+(* whole jobs on CMS miniAOD *)
+Theorem frag_job_correct_mini (bk : backend) (q : query) (n0 : nat) (evs : list event) :
+  let n1 := n0 + List.length (fetches_block (p_body (prog_q bk q n0))) in
+  query_ok q = true -> NoDup (bmems (q_body q) (body_start q n1)) ->
+  (forall ev, In ev evs -> nstuck (dquery ev q)) ->
+  run_job (prog_q_mini bk q n0) evs = djob q evs.
+Proof.
+  intros n1 Hq Nd Hn. unfold run_job, djob.
+  rewrite (run_job_from_ext (prog_q bk q n1) (prog_q_mini bk q n0) (run_event_mini bk q n0)).
+  apply job_from_correct; try assumption.
+  unfold prog_q_mini. cbn [p_members]. fold n1. unfold prog_q at 2. cbn [p_members].
+  apply binit_initial_incl; [|apply incl_appr, incl_refl].
+  rewrite map_app, body_member_names. apply nodup_app; [apply token_members_nodup|exact Nd|].
+  intros m H1 H2. destruct (token_member_names _ _ _ H1) as (i & E & _).
+  destruct (bmems_shape _ _ _ H2) as (name & idx & E2). rewrite E in E2.
+  exact (mem_not_shape name idx "token" i eq_refl (eq_sym E2)).
+Qed.
